@@ -87,8 +87,9 @@ qb_loop_timer_msec_duration_to_expire(struct qb_loop_source * timer_source)
 {
 	struct qb_timer_source *my_src = (struct qb_timer_source *)timer_source;
 	uint64_t left = timerlist_msec_duration_to_expire(&my_src->timerlist);
-	if (left != -1 && left > 0xFFFFFFFF) {
-		left = 0xFFFFFFFE;
+	if (left != (uint64_t)-1 && left > INT32_MAX) {
+		/* the result is used as an int32_t poll timeout */
+		left = INT32_MAX;
 	}
 	return left;
 }
